@@ -45,7 +45,7 @@ def behave(name, n_before, args, kwargs):
     if name == "oth":
         raise ValueError("oth")
     if name == "oth_bad":
-        raise KeyError("bad \udcff message")
+        raise ValueError("bad \udcff message")
     if name == "uns":
         return Unserializable()
     return {"ok": [1, "x", None, True]}
@@ -66,32 +66,32 @@ class Rec:
         self._log.append((self._mount, name))
         return behave(name, n, a, k)
 
-    def pub(self, *a, **k):
-        return self._do("pub", a, k)
+    def pub(*a, **k):
+        return a[0]._do("pub", a[1:], k)
 
-    def count(self, *a, **k):
-        return self._do("count", a, k)
+    def count(*a, **k):
+        return a[0]._do("count", a[1:], k)
 
-    def nargs(self, *a, **k):
-        return self._do("nargs", a, k)
+    def nargs(*a, **k):
+        return a[0]._do("nargs", a[1:], k)
 
-    def te(self, *a, **k):
-        return self._do("te", a, k)
+    def te(*a, **k):
+        return a[0]._do("te", a[1:], k)
 
-    def te_bad(self, *a, **k):
-        return self._do("te_bad", a, k)
+    def te_bad(*a, **k):
+        return a[0]._do("te_bad", a[1:], k)
 
-    def oth(self, *a, **k):
-        return self._do("oth", a, k)
+    def oth(*a, **k):
+        return a[0]._do("oth", a[1:], k)
 
-    def oth_bad(self, *a, **k):
-        return self._do("oth_bad", a, k)
+    def oth_bad(*a, **k):
+        return a[0]._do("oth_bad", a[1:], k)
 
-    def uns(self, *a, **k):
-        return self._do("uns", a, k)
+    def uns(*a, **k):
+        return a[0]._do("uns", a[1:], k)
 
-    def _priv(self, *a, **k):
-        return self._do("_priv", a, k)
+    def _priv(*a, **k):
+        return a[0]._do("_priv", a[1:], k)
 
 
 class Plain:
@@ -254,7 +254,9 @@ def element_class(j):
 def expected_code(tbl_spec, method):
     """Which response a conforming request naming ``method`` must get."""
     def behaviour(name):
-        return {"te": -32602, "te_bad": -32602, "oth": 0, "oth_bad": 0, "uns": 0}.get(name, "result")
+        # te_bad: a TypeError whose message cannot be written as JSON; reported either as an
+        # argument mismatch or as a failure inside the method
+        return {"te": -32602, "te_bad": (-32602, 0), "oth": 0, "oth_bad": 0, "uns": 0}.get(name, "result")
 
     if tbl_spec.get(method) == "fn":
         return behaviour(method.rsplit(".", 1)[-1])
@@ -305,7 +307,7 @@ def check_element(chk, tbl_idx, j, r, case):
                             f"request id of class {id_class(i)} not echoed unchanged", case)
     want = expected_code(TABLE_SPECS[tbl_idx], j["method"])
     got = "result" if "result" in r else (r.get("error") or {}).get("code")
-    if got != want:
+    if got not in (want if isinstance(want, tuple) else (want,)):
         chk.monitor_failure("classification", {"class": "request", "want": want, "got": got},
                             f"conforming request answered by {got}, the property requires {want}", case)
 
@@ -502,7 +504,7 @@ def gen_request(rng, valid_bias=0.5):
 def gen_structured(rng):
     if rng.random() < 0.55:
         req, dist = gen_request(rng)
-        return req, {"shape": "single", **{f"{k}:{v}": 1 for k, v in dist.items()}}
+        return req, {"shape:single": 1, **{f"{k}:{v}": 1 for k, v in dist.items()}}
     n = rng.choice([0, 1, 1, 2, 2, 3, 4, 5, 8])
     out = []
     for _ in range(n):
@@ -510,7 +512,7 @@ def gen_structured(rng):
             out.append(rng.choice([5, None, "x", [], [1], True, 1.5, [{"jsonrpc": "2.0", "method": "o.pub", "id": 1}]]))
         else:
             out.append(gen_request(rng, valid_bias=0.7)[0])
-    return out, {"shape": f"batch{min(n, 3)}{'+' if n > 3 else ''}"}
+    return out, {f"shape:batch{min(n, 3)}{'+' if n > 3 else ''}": 1}
 
 
 def gen_bytes(rng):
@@ -647,6 +649,148 @@ def wrapper_stage(chk, jsonrpc):
     chk.notes.append(f"wrapper stage: {len(cases)} inputs, {len(rows)} evaluated in Coq")
 
 
+# ----------------------------------------------------------------------------
+# the real transport handlers on stubbed transports
+
+
+def run_http(handlers, jsonrpc, tbl_idx, body):
+    log = []
+    h = handlers.JsonRpcHandler.__new__(handlers.JsonRpcHandler)
+    h.jsonrpc = jsonrpc.Wrapper(objects=build_table(tbl_idx, log))
+    h.csrf_protection = False
+    h.allowed_origins = set()
+    h.request = SimpleNamespace(body=body, headers={}, remote_ip="test")
+    out = {"written": [], "error": None}
+    h.write = lambda chunk: out["written"].append(chunk) or True
+    h.write_error = lambda status, **_kw: out.__setitem__("error", status)
+    h.set_header = lambda *_a, **_k: None
+    h.set_status = lambda *_a, **_k: None
+    h.post()
+    return out["written"], out["error"] is not None, log
+
+
+def run_ws(handlers, jsonrpc, tbl_idx, message):
+    log = []
+    h = handlers.WebSocketHandler.__new__(handlers.WebSocketHandler)
+    h.jsonrpc = jsonrpc.Wrapper(objects=build_table(tbl_idx, log))
+    h.request = SimpleNamespace(remote_ip="test")
+    out = {"written": [], "closed": False}
+    h.write_message = lambda m, **_k: out["written"].append(m) or True
+    h.close = lambda *_a, **_k: out.__setitem__("closed", True)
+    h.on_message(message)
+    return out["written"], out["closed"], log
+
+
+def handler_stage(chk, jsonrpc):
+    import logging
+
+    from mopidy.http import handlers
+
+    logging.getLogger("mopidy.http.handlers").setLevel(logging.CRITICAL)
+    n = 250 if chk.tier == "quick" else 2500
+    rng = vlib.Rng(chk.seed, "C07-handlers")
+    cases = [(t, d) for t, d, _ in load_corpus()][:200] + [(0, b""), (0, b"\xff"), (0, b'{"jsonrpc":"2.0","method":"o.pub","id":"\xff"}')]
+    for _ in range(n):
+        if rng.random() < 0.5:
+            cases.append((rng.choice([0, 1, 3]), gen_bytes(rng)[0]))
+        else:
+            cases.append((rng.choice([0, 1, 3]), enc(gen_structured(rng)[0]).encode("utf-8")))
+    rows = []
+    for tbl_idx, data in cases:
+        try:
+            text = data.decode("utf-8")
+            utf8_ok = True
+        except UnicodeDecodeError:
+            text, utf8_ok = None, False
+        parsed_ok, parsed = parse_oracle(data)
+        runs = [("http", run_http(handlers, jsonrpc, tbl_idx, data)), ("ws-binary", run_ws(handlers, jsonrpc, tbl_idx, data))]
+        if text is not None:
+            runs.append(("ws-text", run_ws(handlers, jsonrpc, tbl_idx, text)))
+        for transport, (written, failed, log) in runs:
+            case = {"table": tbl_idx, "hex": data.hex(), "text": data.decode("utf-8", "replace")[:300], "transport": transport}
+            chk.count(1, nontrivial_key=(transport, data) if data and not utf8_ok or (parsed_ok and isinstance(parsed, dict | list)) else None)
+            chk.dist("handler:" + transport)
+            if failed and data:
+                chk.monitor_failure("no_exception", {"exc": "transport", "cause": "invalid_utf8" if not utf8_ok else "other"},
+                                    "the transport handler answered with HTTP 500 / closed the socket instead of a JSON-RPC response", case)
+            if len(written) > 1:
+                chk.monitor_failure("response_parses", {"n": "many"}, "more than one response document written", case)
+                continue
+            if failed:
+                g_out = "EpTransportError"
+            elif not data:
+                g_out = "EpNoMessage" if not written else "(EpOut (OBytes JNull))"
+            elif not written:
+                g_out = "(EpOut ONothing)"
+            else:
+                w = written[0] if isinstance(written[0], bytes) else str(written[0]).encode()
+                g_out = f"(EpOut {g_outcome(('bytes', w), chk, case)})"
+                try:
+                    if not document_grammar_ok(parse_response(w)) and not any(
+                            id_class(j.get("id")) == "nonfinite_float"
+                            for j in (parsed if isinstance(parsed, list) else [parsed]) if isinstance(j, dict)):
+                        chk.monitor_failure("response_grammar", {"shape": "handler"}, "handler response violates the grammar", case)
+                except ValueError:
+                    chk.monitor_failure("response_parses", {}, "handler response is not JSON", case)
+            g_in = f"(Parsed {g_json(parsed)})" if parsed_ok else "ParseFail"
+            rows.append((case, f"(T{tbl_idx}, {vlib.g_bool(not data)}, {vlib.g_bool(utf8_ok)}, {g_in}, {g_out}, {g_log(log)})"))
+    header = HEADER + "".join(f"Definition T{i} : mounts := {g_table(i)}.\n" for i in range(len(TABLE_SPECS)))
+    shards = [rows[i: i + 500] for i in range(0, len(rows), 500)]
+    results = rc.run_shards(vlib, AREA, header, "ep_case", [[r[1] for r in s] for s in shards],
+                            [f"ep_case_ok {MODEL_VERSION}"], jobs=12)
+    ok = True
+    for shard, (lists, log_text) in zip(shards, results):
+        if lists is None:
+            ok = False
+            chk.corr_failure("handlers", {"shard": "coq evaluation failed"}, log_text[-1500:])
+            continue
+        for i in lists[0]:
+            ok = False
+            chk.corr_failure("handlers", shard[i][0])
+    chk.obligation("corr:handlers", "correspondence", ok)
+
+
+def search_hook(jsonrpc):
+    """Directed search after a tie break: mutate the disagreeing request and look for an
+    input on which a monitor (the property predicate) fails."""
+    def hook(cf):
+        case = cf.get("case") or {}
+        if "hex" not in case:
+            return None
+        probe = vlib.Check("C07", AREA)
+        base = bytes.fromhex(case["hex"])
+        rng = vlib.Rng(0, "C07-search")
+        candidates = [base]
+        ok, parsed = parse_oracle(base)
+        if ok:
+            elems = parsed if isinstance(parsed, list) else [parsed]
+            for j in elems:
+                if isinstance(j, dict):
+                    for idv in (1, "x", 1.5, [], {}, True):
+                        candidates.append(enc({**j, "id": idv}).encode())
+                    candidates.append(enc([j, j]).encode())
+                    candidates.append(enc({**j, "x": 1}).encode())
+                    for m in GOOD_PATHS:
+                        candidates.append(enc({**j, "method": m, "id": 1}).encode())
+        for _ in range(200):
+            b = bytearray(base)
+            if b:
+                b[rng.randrange(len(b))] ^= 1 << rng.randrange(8)
+            candidates.append(bytes(b))
+        for data in candidates:
+            for tbl_idx in (case.get("table", 0),):
+                p_ok, p = parse_oracle(data)
+                outcome, log = run_impl(jsonrpc, tbl_idx, data)
+                c = {"table": tbl_idx, "hex": data.hex(), "text": data.decode("utf-8", "replace")[:400], "stream": "search"}
+                monitors(probe, tbl_idx, data, p_ok, p, outcome, log, c)
+                for mf in probe.monitor_failures:
+                    if not any(vlib.finding_matches(e, mf["monitor"], mf["key"]) for e in vlib.load_findings("C07")):
+                        return mf
+                probe.monitor_failures.clear()
+        return None
+    return hook
+
+
 def run(chk):
     chk.rule = ("inputs from three streams (structured requests/batches with each member independently "
                 "missing/mistyped/extreme, arbitrary JSON values, arbitrary and mutated bytes) over 4 mount tables; "
@@ -668,4 +812,6 @@ def run(chk):
     vlib.setup_impl()
     from mopidy.internal import jsonrpc
 
+    chk.search_hook = search_hook(jsonrpc)
     wrapper_stage(chk, jsonrpc)
+    handler_stage(chk, jsonrpc)
